@@ -362,7 +362,11 @@ class World:
                             type(e).__name__)
                 self.ctx.hit("fault.clock_outside_zip_range")
                 if lname in self.store:
+                    # the failed attempt may have left a truncated archive
+                    # beside the older file: nothing more is concluded about
+                    # this name
                     self.store[lname]["defined"] = False
+                    self.store[lname]["frozen"] = True
                 return
             raise Violation("write_failed", f"write_csv of {lname} in mode "
                             f"{mode} raised {e!r}", "write")
